@@ -63,25 +63,45 @@ class DiagGen:
         # innermost function contains the fault; each outer function calls the next with a marker argument
         names = ["fn%d" % i for i in range(depth)]
         prev_call = None
+        # levels (index of the consumer) whose callee is a generator
+        gens = set(i for i in range(1, depth) if r.random() < 0.25)
         for i in range(depth):
             body = []
             for _ in range(r.randrange(0, 3)):
                 body += self.filler()
+            gen_level = False
             if i == 0:
                 body.append(f)
             else:
                 how = r.random()
                 call = App(Id(names[i - 1]), [Int(self.marker())])
-                if how < 0.5:
+                if i in gens:
+                    # the previous level is a generator: consume it with a for loop or with next
+                    if r.random() < 0.6:
+                        body.append(For(["v"], call, Block([Asg("w", Id("v"))])))
+                    else:
+                        body += [Asg("it", call), Asg("w", MCall(Id("it"), "next", [])), Asg("w", MCall(Id("it"), "next", []))]
+                elif how < 0.3:
                     body.append(Asg("r", call))
-                elif how < 0.75:
+                elif how < 0.45:
                     body.append(Core("print", [call]))
-                else:
+                elif how < 0.6:
                     body.append(Asg("r", Bin("+", Int(1), call)))
+                elif how < 0.75:
+                    # the call happens inside a function run by a core-library function
+                    body.append(Asg("r", MCall(Tuple([Int(1), Int(self.marker())]), "fold", [Int(0), Fn([Param("acc"), Param("x")], Block([Bin("+", Id("acc"), call)]))])))
+                elif how < 0.9:
+                    body.append(Asg("r", MCall(MCall(Tuple([Int(1), Int(self.marker())]), "each", [Fn([Param("x")], Block([call]))]), "to_tuple", [])))
+                else:
+                    body.append(Asg("r", MCall(MCall(MCall(Tuple([Int(self.marker())]), "keep", [Fn([Param("x")], Block([Cmp(["=="], [call, Int(0)])]))]), "each", [Fn([Param("y")], Block([Id("y")]))]), "count", [])))
+            if i + 1 in gens:
+                # this level is a generator: it yields once before reaching the fault or the call
+                body.insert(max(0, len(body) - 1), Yield(Int(1)))
+                gen_level = True
             for _ in range(r.randrange(0, 2)):
                 body += self.filler()
             body.append(Int(0))
-            xs.append(Asg(names[i], Fn([Param("_m")], Block(body))))
+            xs.append(Asg(names[i], Fn([Param("_m")], Block(body), gen=gen_level)))
             for _ in range(r.randrange(0, 2)):
                 xs += self.filler()
         if depth == 0:
